@@ -88,6 +88,12 @@ def build(w, inp):
         w.apply(('Event', o[0], o[1], o[2], o[3], o[4], now))
     for i, st in inp.get('inst_states', []):
         ctx.instances[ident(i)]._state = SupvisorsInstanceStates(st)
+    # extra arguments left by earlier start_args requests on every other process: part of what Supvisors reports
+    # (get_process_info) and of what the local Supervisor would run
+    for application in ctx.applications.values():
+        for k, process in enumerate(application.processes.values()):
+            if k % 2 == 0:
+                process._extra_args = '-x 5'
     w.rec.outs = []
     w.rec.oracle = []
     calls = {'extra_args': 0}
